@@ -328,6 +328,10 @@ def eager_contraction_to_binary(red_op, bin_op, reduced_vars, lhs, rhs):
 def eager_contraction_tensor(red_op, bin_op, reduced_vars, *terms):
     if not all(term.dtype == "real" for term in terms):
         raise NotImplementedError("TODO")
+    unrelated_vars = reduced_vars - frozenset().union(*(t.input_vars for t in terms))
+    if unrelated_vars:  # reduce over variables that no operand mentions separately
+        result = Contraction(red_op, bin_op, reduced_vars - unrelated_vars, *terms)
+        return result.reduce(red_op, unrelated_vars)
     backend = BACKEND_TO_EINSUM_BACKEND[get_backend()]
     return _eager_contract_tensors(reduced_vars, terms, backend=backend)
 
@@ -336,6 +340,10 @@ def eager_contraction_tensor(red_op, bin_op, reduced_vars, *terms):
 def eager_contraction_tensor(red_op, bin_op, reduced_vars, *terms):
     if not all(term.dtype == "real" for term in terms):
         raise NotImplementedError("TODO")
+    unrelated_vars = reduced_vars - frozenset().union(*(t.input_vars for t in terms))
+    if unrelated_vars:  # reduce over variables that no operand mentions separately
+        result = Contraction(red_op, bin_op, reduced_vars - unrelated_vars, *terms)
+        return result.reduce(red_op, unrelated_vars)
     backend = BACKEND_TO_LOGSUMEXP_BACKEND[get_backend()]
     return _eager_contract_tensors(reduced_vars, terms, backend=backend)
 
